@@ -167,7 +167,10 @@ def _loo_terms(vc, st):
     # diagonal entries of the inverse of a positive-definite matrix are positive (assumed fact of the matrix layer)
     if not getattr(st, "_ci_pos", False):
         st._ci_pos = True
-        vc.assume_forall(st.n, lambda i: S.cmp(">", st.Ci.at(i, i), 0), "inverse-diagonal-positive")
+        vc.assume_lemma("the diagonal entries of the inverse of a positive-definite matrix are positive",
+                        extents=st.n, fn=lambda i: S.cmp(">", st.Ci.at(i, i), 0))
+        vc.assume_lemma("R&W (5.12): the leave-one-out predictive mean/variance of point i are y_i - [C^-1 r]_i / [C^-1]_ii and "
+                        "1 / [C^-1]_ii (block-inverse lemma); compared with explicit refits in the bounded layer")
     a = st.Ci @ st.r                                       # C^-1 (y - m)
     var = lambda i: S.div(1, st.Ci.at(i, i))               # leave-one-out predictive variance  (R&W 5.12)
     mu = lambda i: S.sub(st.y.at(i), S.mul(a.at(i), var(i)))   # leave-one-out predictive mean
@@ -232,3 +235,4 @@ def loo_likelihood_gradient(vc):
                       lambda k: S.cmp("==", grad.at(k), true_grad(("mean", S.z(k)))))
     vc.ensures_forall("covariance_parameter_gradient_is_true_derivative", st.nc,
                       lambda k: S.cmp("==", grad.at(S.add(k, st.nm)), true_grad(("cov", S.z(k)))))
+import contracts.matrix_laws  # noqa: F401  (numerical self-test of the matrix layer's axioms)
